@@ -38,6 +38,8 @@ def _grid(V):
     st.ghost[("np", "meshgrid")] = lambda I_, a, k: mesh.append(a) or tuple(Obj(I.builtins["object"], {"axis": j, "ravel": Builtin("ravel", (lambda j_: lambda i2, a2, k2: ("ravel", j_))(j))}, tag="mesh") for j in range(3))
     stack = []
     st.ghost[("np", "column_stack")] = lambda I_, a, k: stack.append(a[0]) or Opaque("obj:grid")
+    V.witness(lambda ev: {"op": "rectangular_grid", "lo": [ev(x, 0.0) for x in r1], "hi": [ev(x, 1.0) for x in r2], "padding": ev(pad, 0.0),
+                          "spacing": ev(sp, 1.0), "signature": "rectangular_grid"})
     V.cover()
     out = V.call(f"{GB}:rectangular_grid", [ListV(r1), ListV(r2)], {"padding": pad, "spacing": sp})
     V.ensure("post/returns", z3.BoolVal(out.returned))
